@@ -84,7 +84,10 @@ NAME_POOLS = [["a", "b", "c"], ["web", "worker", "cron"], ["Alpha", "beta", "GAM
 CMD_KEYS = [("cmd", "simworker %s v1", "simworker %s v2"), ("args", "--one", "--two x"),
             ("graceful_timeout", "3", "7"), ("max_retry", "4", "6"), ("stop_signal", "TERM", "INT"),
             ("priority", "1", "2"), ("send_hup", "False", "True"), ("stop_children", "False", "True"),
-            ("working_dir", "/tmp", "/")]
+            ("working_dir", "/tmp", "/"),
+            # a nested option: config.py folds stdout_stream.* into the dict watcher['stdout_stream'] (the section
+            # then also carries stdout_stream.class = FileStream); %s = scratch directory / watcher name
+            ("stdout_stream.filename", "%s/o1-%s.log", "%s/o2-%s.log")]
 # keys that are in the dict only when the section spells them: (key, value 1, value 2)
 OPT_KEYS = [("max_age", "100000", "200000"), ("max_age_variance", "5", "9"), ("check_flapping", "False", "True"),
             ("retry_in", "3", "7")]
@@ -95,14 +98,46 @@ ENV_STYLES = [("FOO = one\n", "FOO = two\n"), ("", "FOO = two\n"), ("A_KEY = 1\n
               ("FOO = one\nBAR = x\n", "FOO = one\n")]
 
 
-def make_spelling(rng, model_names):
+# Constant extras of a watcher section, chosen per watcher by the seeded spelling and left alone by every edit:
+# options that config.py turns into nested dicts of the watcher dict (stdout_stream / stderr_stream / hooks /
+# rlimits).  The dicts w._cfg holds for them must survive the watcher's construction unchanged, or every later
+# reload sees the watcher as changed.  %(d)s = scratch directory, %(n)s = watcher name.
+STREAM_EXTRAS = [[],
+                 ["stdout_stream.class = StdoutStream"],
+                 ["stdout_stream.class = FileStream", "stdout_stream.filename = %(d)s/out-%(n)s.log"],
+                 ["stdout_stream.class = FileStream", "stdout_stream.filename = %(d)s/out-%(n)s.log",
+                  "stderr_stream.class = FileStream", "stderr_stream.filename = %(d)s/err-%(n)s.log",
+                  "stderr_stream.max_bytes = 100000"],
+                 ["stderr_stream.class = StdoutStream"],
+                 ["stdout_stream.class = FancyStdoutStream", "stdout_stream.color = green"]]
+HOOK_EXTRAS = [[], [], ["hooks.before_start = c12hooks.ok"],
+               ["hooks.before_start = c12hooks.ok", "hooks.after_stop = c12hooks.ok, True"]]
+RLIMIT_EXTRAS = [[], [], ["rlimit_nofile = 500"]]
+HOOK_MODULE = "def ok(watcher=None, arbiter=None, hook_name=None, **kw):\n    return True\n"
+
+
+def ensure_hook_module(workdir):
+    """the importable dotted name the hooks.* options refer to: <workdir>/c12hooks.py, on sys.path"""
+    path = os.path.join(workdir, "c12hooks.py")
+    if not os.path.exists(path):
+        with open(path, "w") as fh:
+            fh.write(HOOK_MODULE)
+    if workdir not in sys.path:
+        sys.path.insert(0, workdir)
+
+
+def make_spelling(rng, model_names, workdir="<scratch>"):
     pool = list(rng.choice(NAME_POOLS))
     rng.shuffle(pool)
     order = list(model_names)
     rng.shuffle(order)
     return {"names": dict(zip(model_names, pool)), "cmd": rng.randrange(len(CMD_KEYS)),
             "opt": rng.randrange(len(OPT_KEYS)), "env": rng.randrange(len(ENV_STYLES)),
-            "omit_np1": rng.random() < 0.3, "order": order, "env_first": rng.random() < 0.3}
+            "omit_np1": rng.random() < 0.3, "order": order, "env_first": rng.random() < 0.3,
+            "extras": {m: [rng.randrange(len(STREAM_EXTRAS)) if rng.random() < 0.6 else 0,
+                           rng.randrange(len(HOOK_EXTRAS)), rng.randrange(len(RLIMIT_EXTRAS))]
+                       for m in model_names},
+            "dir": workdir}
 
 
 def render(version, sp):
@@ -117,15 +152,24 @@ def render(version, sp):
         name = sp["names"][m]
         cval = (c1, c2)[cmd - 1]
         lines = ["[watcher:%s]" % name]
+        se, he, re_ = sp["extras"][m]
+        extras = list(HOOK_EXTRAS[he]) + list(RLIMIT_EXTRAS[re_])
         if ck == "cmd":
             lines.append("cmd = " + cval % name)
+        elif ck == "stdout_stream.filename":
+            lines.append("cmd = simworker %s" % name)
+            lines.append("stdout_stream.class = FileStream")
+            lines.append("%s = %s" % (ck, cval % (sp["dir"], name)))
         else:
             lines.append("cmd = simworker %s" % name)
             lines.append("%s = %s" % (ck, cval))
+        if ck != "stdout_stream.filename":
+            extras = list(STREAM_EXTRAS[se]) + extras
         if not (np_ == 1 and sp["omit_np1"]):
             lines.append("numprocesses = %d" % np_)
         if opt:
             lines.append("%s = %s" % (ok, (o1, o2)[opt - 1]))
+        lines.extend(x % {"d": sp["dir"], "n": name} for x in extras)
         sec = "\n".join(lines) + "\n"
         body = ENV_STYLES[sp["env"]][env - 1]
         envsec = ("[env:%s]\n%s" % (name, body)) if body else ""
@@ -150,7 +194,32 @@ def _simmod():
 
             def __init__(self, path):
                 self._path = path
+                self._pipes = []
                 simdaemon.Sim.__init__(self, [], check_delay=CHECK_DELAY, record_state=False, config_file=path)
+                self.kernel.on_popen = self._on_popen
+
+            def _on_popen(self, popen, args, kw):
+                """a watcher with stdout_stream / stderr_stream asks for PIPEs and hands their read ends to the real
+                Redirector (add_redirections calls pipe.fileno()): give the simulated worker real pipes"""
+                import subprocess
+                for name in ("stdout", "stderr"):
+                    if kw.get(name) == subprocess.PIPE:
+                        r, w = os.pipe()
+                        f = os.fdopen(r, "rb", 0)
+                        self._pipes.append((f, w))
+                        setattr(popen, name, f)
+
+            def close(self):
+                try:
+                    simdaemon.Sim.close(self)
+                finally:
+                    for f, w in self._pipes:
+                        for c in (f.close, lambda w=w: os.close(w)):
+                            try:
+                                c()
+                            except OSError:
+                                pass
+                    self._pipes = []
 
             def _build(self):
                 A = circus.arbiter.Arbiter
@@ -311,7 +380,8 @@ def run_sequence(seq, render_seed, workdir):
     """
     rng = random.Random(render_seed)
     mnames = list(seq["names"])
-    sp = make_spelling(rng, mnames)
+    ensure_hook_module(workdir)
+    sp = make_spelling(rng, mnames, workdir)
     real = {m: n.lower() for m, n in sp["names"].items()}
     versions = [seq["init"]] + [s["file"] for s in seq["steps"]]
     texts = [render(v, sp) for v in versions]
@@ -674,7 +744,8 @@ def _run(verdict, cov, tier, seed, rng, thorough, scratch):
     # --- verdicts -----------------------------------------------------------------------------
     stats = {"sequences": len(jobs), "reloads": 0, "ok": 0, "divergence": 0, "d8": 0, "violation": 0,
              "model_counterexample_steps": 0, "model_counterexample_steps_reproduced": 0,
-             "kinds": {}, "relations": {}, "d8_branches": {}, "spellings": 0, "errors": 0}
+             "kinds": {}, "relations": {}, "d8_branches": {}, "spellings": 0, "errors": 0,
+             "sequences_with_stream_options": 0, "sequences_with_hooks": 0}
     spell = set()
     reports = {"d8": 0, "violation": 0}
     per_branch = {}
@@ -688,7 +759,12 @@ def _run(verdict, cov, tier, seed, rng, thorough, scratch):
                     ji, (s or {}).get("error") or "boot on the first version did not yield the model's initial state"))
             continue
         sp = make_spelling(random.Random(rseed), list(seq["names"]))
-        spell.add((tuple(sorted(sp["names"].values())), sp["cmd"], sp["opt"], sp["env"], sp["omit_np1"]))
+        spell.add((tuple(sorted(sp["names"].values())), sp["cmd"], sp["opt"], sp["env"], sp["omit_np1"],
+                   tuple(sorted((m, tuple(v)) for m, v in sp["extras"].items()))))
+        if any(v[0] for v in sp["extras"].values()) or CMD_KEYS[sp["cmd"]][0].startswith("stdout_stream"):
+            stats["sequences_with_stream_options"] += 1
+        if any(v[1] for v in sp["extras"].values()):
+            stats["sequences_with_hooks"] += 1
         for stp in s["steps"]:
             stats["reloads"] += 1
             stats[stp["cls"]] += 1
